@@ -1,6 +1,7 @@
 import NumbersModel.Drv.Proto
 import NumbersModel.Model.Formula
 import NumbersModel.Model.FormulaLex
+import NumbersModel.Model.FormulaAcceptDefs
 namespace NumbersModel.Drv
 open NumbersModel NumbersModel.Formula NumbersModel.Formula.Parse
 
@@ -135,6 +136,11 @@ def handleFormula : List String → Option String
     let c := canon e
     pure ("ok " ++ showPT c ++ " " ++ flag (WellParen e) ++ " " ++ flag (RefsSafe e) ++ " " ++
       flag (showOptPT (readText (render e)) == showPT c))
+  -- is the stored tree inside the domain of C18's `reader_output_accepted_partial`?
+  | "toksafe" :: ws => do
+    let (e, rest) ← parseExpr (ws.length + 1) ws
+    if rest ≠ [] then none
+    pure ("ok " ++ flag (FormulaAccept.TokSafe e))
   | ["namesafe", t] => do
     let t ← parseText t
     pure ("ok " ++ flag (nameSafe t))
